@@ -18,16 +18,26 @@ Z = ("fd00::22", 5683)
 ACTIVITIES = ["await_ack", "await_separate", "blockwise_put", "observe_client", "server_slow", "server_fast", "server_observe", "backlog", "non_request", "blockwise_get", "server_slow_retoken", "server_observe_renew"]
 
 
-def make_site(net, name):
+_SITE_CLASSES = None
+
+
+def _site_classes():
+    """the resource classes, created once per process.  (Creating them per run -- hundreds of thousands of classes in a
+    thorough run -- made one worker crawl: every isinstance() against aiocoap's ABCs walks and caches all subclasses
+    that are still alive, which cost that worker 24 GB and half an hour in a single scenario.)"""
+    global _SITE_CLASSES
+    if _SITE_CLASSES is not None:
+        return _SITE_CLASSES
     import aiocoap
     from aiocoap import resource
 
     class Slow(resource.Resource):
-        def __init__(self, d):
+        def __init__(self, net, name, d):
             super().__init__()
-            self.d = d
+            self.net, self.name, self.d = net, name, d
 
         async def render_get(self, request):
+            net, name = self.net, self.name
             net.events.append((net.loop.time(), "handler-start", name, self.d))
             try:
                 await asyncio.sleep(self.d)
@@ -38,33 +48,46 @@ def make_site(net, name):
             return aiocoap.Message(payload=b"slow-%s" % name.encode())
 
     class Fast(resource.Resource):
+        def __init__(self, net, name):
+            super().__init__()
+            self.net, self.name = net, name
+
         async def render_get(self, request):
-            return aiocoap.Message(payload=b"fast-%s" % name.encode())
+            return aiocoap.Message(payload=b"fast-%s" % self.name.encode())
 
     class Big(resource.Resource):
         async def render_get(self, request):
             return aiocoap.Message(payload=b"B" * 3000)
 
     class Obs(resource.ObservableResource):
-        def __init__(self):
+        def __init__(self, net, name):
             super().__init__()
+            self.net, self.name = net, name
             self.n = 0
             self.count = 0
             self.cancelled = 0
 
         def update_observation_count(self, newcount):
-            net.events.append((net.loop.time(), "obs-count", name, newcount))
+            self.net.events.append((self.net.loop.time(), "obs-count", self.name, newcount))
             self.count = newcount
 
         async def render_get(self, request):
             return aiocoap.Message(payload=b"state-%d" % self.n)
 
+    _SITE_CLASSES = (Slow, Fast, Big, Obs)
+    return _SITE_CLASSES
+
+
+def make_site(net, name):
+    from aiocoap import resource
+
+    Slow, Fast, Big, Obs = _site_classes()
     site = resource.Site()
-    site.add_resource(["slow5"], Slow(5.0))
-    site.add_resource(["slow1"], Slow(1.0))
-    site.add_resource(["fast"], Fast())
+    site.add_resource(["slow5"], Slow(net, name, 5.0))
+    site.add_resource(["slow1"], Slow(net, name, 1.0))
+    site.add_resource(["fast"], Fast(net, name))
     site.add_resource(["big"], Big())
-    obs = Obs()
+    obs = Obs(net, name)
     site.add_resource(["obs"], obs)
     return site, obs
 
